@@ -1107,11 +1107,12 @@ def run(ctx):
     # ctx.rng; the wall-clock guard can only truncate the list of histories, never change one
     base = rng.getrandbits(64)
     budget = 40.0 if quick else 480.0
-    t_end = ctx.t0 + budget
+    t_start = time.time()   # budget of the workload itself (Lean build/audit time is not charged to it)
+    t_end = t_start + budget
     n_pristine = 90 if quick else 800
     n_resizing = 290 if quick else 4000
     for phase, count in (("pristine", n_pristine), ("resizing", n_resizing)):
-        limit = ctx.t0 + (budget * 0.3 if phase == "pristine" else budget)
+        limit = t_start + (budget * 0.3 if phase == "pristine" else budget)
         for i in range(count):
             if time.time() > limit:
                 ctx.count(f"wall-clock-guard:{phase}")
